@@ -2,9 +2,10 @@
 import os
 
 import verif as V
+import locks
 
 PROP = "C02"
-SPEC = ["Bng.Spec.C02", "Bng.Spec.C01V6Construct"]
+SPEC = ["Bng.Spec.C02", "Bng.Spec.C01V6Construct"] + ["Bng.Spec.C02Locks"]
 MON = ["foreign-ack", "double-binding", "range", "renew-changed", "declined-reoffered", "not-reusable",
        # what the DHCPv6 pool constructors build (newpool / newapool over all legal geometries)
        "pool-distinct", "pool-inside"]
@@ -56,11 +57,12 @@ ASSUME = [
     "wire codec (insomniacslk/dhcp for v4, pkg/dhcpv6/protocol.go for v6) is exercised (every message is serialised and "
     "re-parsed) but not modelled",
 ]
+ASSUME = ASSUME + [locks.ASSUME]
 
 
 def run(tier, seed):
-    return V.standard_check(PROP, SPEC, COMPS, LEVEL, ASSUME, tier, seed)
+    return V.standard_check(PROP, SPEC, COMPS, LEVEL, ASSUME, tier, seed, pre=locks.with_locks())
 
 
 def replay(path):
-    return V.replay(PROP, COMPS, path, SPEC)
+    return V.replay(PROP, COMPS, path, SPEC, pre=locks.with_locks())
